@@ -63,6 +63,14 @@ func assetsDoc(repo string) (J, error) {
 		flowsList = append(flowsList, fl)
 	}
 	a["flows"] = flowsList
+	// two districts of the same name under different states: a lookup by name and parent filters a
+	// shared list of candidates
+	a["locations"] = []any{
+		J{"name": "Rwanda", "children": []any{
+			J{"name": "Kigali City", "children": []any{J{"name": "Gasabo", "children": []any{J{"name": "Ndera"}}}, J{"name": "Nyarugenge", "children": []any{}}}},
+			J{"name": "Eastern Province", "children": []any{J{"name": "Gasabo", "aliases": []any{"Gasabo East"}, "children": []any{J{"name": "Rukara"}}}, J{"name": "Kayonza", "children": []any{}}}},
+		}},
+	}
 	return a, nil
 }
 
@@ -220,7 +228,7 @@ func (t *Thread) Step(i int, sa flows.SessionAssets, eng flows.Engine) {
 			w("eval: no context")
 			return
 		}
-		for _, tpl := range []string{`@(has_text(""))`, `@(has_text("").match)`, `@(json(object()))`, `@(if(has_number("x"), 1, 2))`, `@contact.name @results @(json(run))`, `@(count(array()))`} {
+		for _, tpl := range []string{`@(has_district("Gasabo", "Eastern Province").match)`, `@(has_district("Gasabo", "Kigali City").match)`, `@(has_ward("Rukara", "Gasabo", "Eastern Province").match)`, `@(has_state("Kigali City").match)`, `@(has_text(""))`, `@(has_text("").match)`, `@(json(object()))`, `@(if(has_number("x"), 1, 2))`, `@contact.name @results @(json(run))`, `@(count(array()))`} {
 			v, _, err := eng.Evaluator().Template(t.session.MergedEnvironment(), ctx, tpl, nil)
 			w("eval %s -> %s %v", tpl, v, err)
 		}
